@@ -92,10 +92,13 @@ Record mstate := {
   m_nins : nat;
   m_swept : bool;      (* the last state-changing label was a Sweep (quiescent point) *)
   m_noresize : bool;   (* no Resize since the last Clear / start (C03's histories) *)
-  m_last : option (Z * Z * bool)  (* the Set just executed: key, value, was the cache quiescent before it *)
+  m_last : option (Z * Z * bool); (* the Set just executed: key, value, was the cache quiescent before it *)
+  m_pswept : option oblock;       (* the last observation block taken at a quiescent (swept) point *)
+  m_ins : nat;                    (* insertions since that block *)
+  m_dirty : bool                  (* a Delete / Clear / Resize since that block *)
 }.
 Definition m0 : mstate :=
-  {| m_ideal := []; m_touched := []; m_prev := None; m_born := []; m_clock := 0; m_nins := 0; m_swept := true; m_noresize := true; m_last := None |}.
+  {| m_ideal := []; m_touched := []; m_prev := None; m_born := []; m_clock := 0; m_nins := 0; m_swept := true; m_noresize := true; m_last := None; m_pswept := None; m_ins := 0; m_dirty := false |}.
 
 Definition present_in (ob : oblock) (k : Z) : bool := negb (Z.eqb (nth_z (ogets ob) (Z.to_nat k - 1)) 0).
 
@@ -123,6 +126,16 @@ Definition c03_block (m : mstate) (ob : oblock) : bool :=
       && (negb (Nat.leb (m_nins m) (Z.to_nat (ocap ob)))
           || forallb (fun a => present_in ob (fst a)) (m_born m))).
 
+(* C03: with prompt sweeps each overflow evicts at most one partition's worth (Capacity / partitions):
+   between two consecutive quiescent blocks separated by exactly one insertion and no Delete/Clear/Resize,
+   Len drops by at most C - 1 *)
+Definition c03_one_partition (nparts : Z) (m : mstate) (ob : oblock) : bool :=
+  negb (m_swept m && m_noresize m) || m_dirty m || negb (Nat.eqb (m_ins m) 1)
+  || match m_pswept m with
+     | Some pb => (olen pb + 1 - (ocap ob / nparts) <=? olen ob)%Z
+     | None => true
+     end.
+
 Definition block_ok (mon : Z) (m : mstate) (ob : oblock) : bool :=
   match mon with
   | 1%Z => c01_block m ob
@@ -130,6 +143,8 @@ Definition block_ok (mon : Z) (m : mstate) (ob : oblock) : bool :=
   | 3%Z => c03_block m ob
   | _ => true
   end.
+Definition block_ok' (mon : Z) (nparts : Z) (m : mstate) (ob : oblock) : bool :=
+  block_ok mon m ob && (negb (Z.eqb mon 3) || c03_one_partition nparts m ob).
 
 (* C13 around a Resize is checked on the blocks immediately before and after it (see [monitor]) *)
 Definition c13_resize (before after : oblock) (pc : nat * nat) (order : list (list Z)) : bool :=
@@ -147,7 +162,7 @@ Definition c13_resize (before after : oblock) (pc : nat * nat) (order : list (li
                     (negb seen_survivor || p) && suffix t (seen_survivor || p)
         end) (concat order) false.
 
-Fixpoint monitor (mon : Z) (opt : copt) (m : mstate) (ops : list hop) : bool :=
+Fixpoint monitor (mon : Z) (opt : copt) (nparts : Z) (m : mstate) (ops : list hop) : bool :=
   match ops with
   | [] => true
   | o :: t =>
@@ -157,8 +172,9 @@ Fixpoint monitor (mon : Z) (opt : copt) (m : mstate) (ops : list hop) : bool :=
           let m' := {| m_ideal := upsert Z.eqb k v (m_ideal m); m_touched := k :: m_touched m; m_prev := m_prev m;
                        m_born := if wp then m_born m else upsert Z.eqb k (m_clock m) (m_born m);
                        m_clock := S (m_clock m); m_nins := if wp then m_nins m else S (m_nins m);
-                       m_swept := false; m_noresize := m_noresize m; m_last := Some (k, v, m_swept m) |} in
-          monitor mon opt m' t
+                       m_swept := false; m_noresize := m_noresize m; m_last := Some (k, v, m_swept m);
+                       m_pswept := m_pswept m; m_ins := if wp then m_ins m else S (m_ins m); m_dirty := m_dirty m |} in
+          monitor mon opt nparts m' t
       | HGet k r =>
           (negb (Z.eqb mon 1)
            || match m_last m with
@@ -166,19 +182,22 @@ Fixpoint monitor (mon : Z) (opt : copt) (m : mstate) (ops : list hop) : bool :=
               | None => true
               end
               && (Z.eqb r 0 || match zlookup k (m_ideal m) with Some v => Z.eqb r v | None => false end))
-          && monitor mon opt m t
-      | HContains _ _ => monitor mon opt m t
+          && monitor mon opt nparts m t
+      | HContains _ _ => monitor mon opt nparts m t
       | HDelete k =>
-          monitor mon opt {| m_ideal := remove Z.eqb k (m_ideal m); m_touched := m_touched m; m_prev := m_prev m;
+          monitor mon opt nparts {| m_ideal := remove Z.eqb k (m_ideal m); m_touched := m_touched m; m_prev := m_prev m;
                              m_born := remove Z.eqb k (m_born m); m_clock := S (m_clock m); m_nins := m_nins m;
-                             m_swept := m_swept m; m_noresize := m_noresize m; m_last := None |} t
+                             m_swept := m_swept m; m_noresize := m_noresize m; m_last := None;
+                             m_pswept := m_pswept m; m_ins := m_ins m; m_dirty := true |} t
       | HSweep =>
-          monitor mon opt {| m_ideal := m_ideal m; m_touched := m_touched m; m_prev := m_prev m; m_born := m_born m;
+          monitor mon opt nparts {| m_ideal := m_ideal m; m_touched := m_touched m; m_prev := m_prev m; m_born := m_born m;
                              m_clock := m_clock m; m_nins := m_nins m; m_swept := true; m_noresize := m_noresize m;
-                             m_last := match m_last m with Some (k, v, true) => Some (k, v, true) | _ => None end |} t
+                             m_last := match m_last m with Some (k, v, true) => Some (k, v, true) | _ => None end;
+                             m_pswept := m_pswept m; m_ins := m_ins m; m_dirty := m_dirty m |} t
       | HClear =>
-          monitor mon opt {| m_ideal := []; m_touched := m_touched m; m_prev := m_prev m; m_born := [];
-                             m_clock := S (m_clock m); m_nins := 0; m_swept := true; m_noresize := true; m_last := None |} t
+          monitor mon opt nparts {| m_ideal := []; m_touched := m_touched m; m_prev := m_prev m; m_born := [];
+                             m_clock := S (m_clock m); m_nins := 0; m_swept := true; m_noresize := true; m_last := None;
+                             m_pswept := m_pswept m; m_ins := m_ins m; m_dirty := true |} t
       | HResize n root order =>
           (match mon, m_prev m, t with
            | 13%Z, Some before, HObs after :: _ =>
@@ -188,13 +207,17 @@ Fixpoint monitor (mon : Z) (opt : copt) (m : mstate) (ops : list hop) : bool :=
                else c13_resize before after (calc opt root n) order
            | _, _, _ => true
            end)
-          && monitor mon opt {| m_ideal := m_ideal m; m_touched := m_touched m; m_prev := m_prev m; m_born := m_born m;
-                                m_clock := m_clock m; m_nins := m_nins m; m_swept := m_swept m; m_noresize := false; m_last := None |} t
+          && monitor mon opt nparts {| m_ideal := m_ideal m; m_touched := m_touched m; m_prev := m_prev m; m_born := m_born m;
+                                m_clock := m_clock m; m_nins := m_nins m; m_swept := m_swept m; m_noresize := false; m_last := None;
+                                m_pswept := m_pswept m; m_ins := m_ins m; m_dirty := true |} t
       | HObs ob =>
-          block_ok mon m ob
-          && monitor mon opt {| m_ideal := m_ideal m; m_touched := []; m_prev := Some ob; m_born := m_born m;
+          block_ok' mon nparts m ob
+          && monitor mon opt nparts {| m_ideal := m_ideal m; m_touched := []; m_prev := Some ob; m_born := m_born m;
                                 m_clock := m_clock m; m_nins := m_nins m; m_swept := m_swept m; m_noresize := m_noresize m;
-                                m_last := m_last m |} t
+                                m_last := m_last m;
+                                m_pswept := if m_swept m then Some ob else m_pswept m;
+                                m_ins := if m_swept m then 0 else m_ins m;
+                                m_dirty := if m_swept m then false else m_dirty m |} t
       end
   end.
 
@@ -211,7 +234,7 @@ Definition verdict (c : case) : nat :=
   match c with
   | CHist mon opt cap root ops =>
       let pc := calc opt root cap in
-      let ok_mon := monitor mon opt m0 ops && (negb (Z.eqb mon 2) || rounding_ok opt cap root ops) in
+      let ok_mon := monitor mon opt (Z.of_nat (fst pc)) m0 ops && (negb (Z.eqb mon 2) || rounding_ok opt cap root ops) in
       if negb ok_mon then 1
       else if agree opt (init (fst pc) (snd pc)) ops then 0 else 2
   end.
